@@ -122,6 +122,14 @@ func (t *KernMethod) TransferGovernTokens(ctx contract.KContext) (*contract.Resp
 	}
 	senderBalance.TotalBalance.Sub(senderBalance.TotalBalance, amount)
 
+	// 更新sender余额 (先写sender, 这样sender给自己转账时receiver读到的是扣减之后的余额)
+	senderBalanceBuf, _ := json.Marshal(senderBalance)
+	senderKey := utils.MakeAccountBalanceKey(sender)
+	err = ctx.Put(utils.GetGovernTokenBucket(), []byte(senderKey), senderBalanceBuf)
+	if err != nil {
+		return nil, fmt.Errorf("transfer gov tokens failed, update sender's balance")
+	}
+
 	// 查询receiver余额并更新, receiver已有的锁定余额保持不变
 	receiverBalance := utils.NewGovernTokenBalance()
 	receiverKey := utils.MakeAccountBalanceKey(string(receiverBuf))
@@ -133,14 +141,6 @@ func (t *KernMethod) TransferGovernTokens(ctx contract.KContext) (*contract.Resp
 		}
 	}
 	receiverBalance.TotalBalance.Add(receiverBalance.TotalBalance, amount)
-
-	// 更新sender余额
-	senderBalanceBuf, _ := json.Marshal(senderBalance)
-	senderKey := utils.MakeAccountBalanceKey(sender)
-	err = ctx.Put(utils.GetGovernTokenBucket(), []byte(senderKey), senderBalanceBuf)
-	if err != nil {
-		return nil, fmt.Errorf("transfer gov tokens failed, update sender's balance")
-	}
 
 	// 更新receiver余额
 	receiverBalanceBuf, _ = json.Marshal(receiverBalance)
